@@ -28,6 +28,7 @@ Further reading on DAG circuit representation:
 https://qiskit.org/documentation/stubs/qiskit.converters.circuit_to_dag.html
 """
 
+import copy
 import functools
 import re
 import string
@@ -1176,6 +1177,7 @@ class CircuitDAG(CircuitBase):
         seq = self._slim_seq()
         noisy_ops = []
         for op in seq:
+            op = copy.copy(op)
             is_controlled = False
             if isinstance(op, ops.OneQubitGateWrapper):
                 op_type_seq = [type(gate) for gate in op.unwrap()]
